@@ -1,4 +1,5 @@
 #![cfg_attr(kani, feature(allocator_api))]
+#![cfg_attr(kani, recursion_limit = "512")]
 mod checkpoints;
 mod compaction_auto_summary;
 mod compaction_checkpoint_index;
